@@ -12,7 +12,8 @@ LEVEL_TEXT = ('For every multi-chain input of the corpus (record streams with ch
               'and re-used ids; docked pairs and clusters with a burial chain; multi-chain cut-outs; whole multi-chain files '
               'with hetero groups) and every non-empty proper subset of its chain ids, the real program is run once with -c and '
               'once without the option on the literal file from which the other chains\' ATOM/HETATM records were deleted; '
-              'the complete observation records and the written .pka text (date line removed) must be identical.')
+              'the complete observation records and the written .pka text (date line removed) must be identical, also when '
+              'titrate-only lists (inside / outside / across the selection), -d or -k are given to both runs.')
 LEVEL_NOTE = 'Differential oracle: no reference values are needed. Inputs with more than 4 chains use single chains and complements only.'
 TECHNIQUE = 'exhaustive enumeration of chain subsets over a bounded input corpus; differential (metamorphic) comparison of two real executions'
 ASSUMPTIONS = ['records other than ATOM/HETATM are left in place when chains are deleted']
@@ -66,7 +67,9 @@ def plan(tier, seed):
                 rule=('inputs: C01 record streams with a chain change (quick: a fixed 1/32 sub-enumeration; thorough: all up to 3 '
                       'deviations), docked pairs (4x6 kinds), clusters, 12 A cut-outs around titratable residues of 4 proteins, whole '
                       'multi-chain files; selections: every non-empty proper subset of the chain ids (inputs with > 4 chains: '
-                      'singletons and their complements), each given in both flag orders for 2-subsets. non-trivial = distinct '
+                      'singletons and their complements), each given in both flag orders for 2-subsets; for corpus inputs every selection is '
+                      'also run together with -i (first residue of a selected chain / of a deleted chain / both), -d and -k on both '
+                      'sides. non-trivial = distinct '
                       '(input, selection) whose selected part contains at least one group'),
                 bounds=dict(inputs=len(ins)), samples=[ins[0], ins[-1]])
 
@@ -87,6 +90,29 @@ def selections(chains):
     return out
 
 
+def co_options(s, sel, case, tier):
+    """Other options given to both runs: the equivalence is claimed whatever else is on the command line.  Titrate-only lists
+    naming (a) only residues of selected chains, (b) only residues of deleted chains, (c) both; coupled display; keep-protons."""
+    out = [()]
+    if case['src'] != 'corpus' or case['d'].get('t') == 'file' and tier == 'quick':
+        return out
+    first = {}
+    for a in s.atoms:
+        if a.chain.strip() and a.rec == 'ATOM  ':
+            first.setdefault(a.chain, (a.chain, a.resnum, a.icode))
+    inside = [first[c] for c in sel if c in first][:1]
+    outside = [first[c] for c in first if c not in sel][:1]
+    arg = lambda keys: ','.join('%s:%d%s' % (c, n, i.strip()) for c, n, i in keys)
+    if inside:
+        out.append(('-i', arg(inside)))
+    if outside:
+        out.append(('-i', arg(outside)))
+    if inside and outside:
+        out.append(('-i', arg(outside + inside)))
+    out += [('-d',), ('-k',)]
+    return out
+
+
 def run_case(case, ctx, acc):
     s = build(case, ctx.seed)
     if s is None:
@@ -100,12 +126,12 @@ def run_case(case, ctx, acc):
         acc.skipped += 1
         return
     text = gen.to_text(s)
-    for sel in selections(chains):
-        opts = []
+    for sel, co in ((sel, co) for sel in selections(chains) for co in co_options(s, sel, case, ctx.tier)):
+        opts = list(co)
         for c in sel:
             opts += ['-c', c]
         deleted = gen.to_text([i for i in s.items if isinstance(i, str) or i.chain in sel])
-        sub = dict(case, sel=sel)
+        sub = dict(case, sel=sel, co=list(co))
         try:
             m1 = pk.run(text, opts, write=True)
             r1 = pk.record(m1, text=m1._pka_text)
@@ -113,7 +139,7 @@ def run_case(case, ctx, acc):
         except ValueError as exc:
             r1, e1 = None, str(exc)[:60]
         try:
-            m2 = pk.run(deleted, (), write=True)
+            m2 = pk.run(deleted, co, write=True)
             r2 = pk.record(m2, text=m2._pka_text)
             e2 = None
         except ValueError as exc:
@@ -132,5 +158,5 @@ def run_case(case, ctx, acc):
         d = cmp.diff_records(r1, r2, tol=0.0)
         if d:
             acc.viols.append(Viol(sub, 'chain-select', 'selection-differs-from-deletion/%s' % d[0][0],
-                                  '-c %s: first difference %s' % (sel, str(d[0])[:300]), detail=[str(x)[:200] for x in d[:5]],
+                                  '-c %s %s: first difference %s' % (sel, ' '.join(co), str(d[0])[:300]), detail=[str(x)[:200] for x in d[:5]],
                                   inputs=dict(pdb=text, opts=opts, deleted=deleted)))
